@@ -149,14 +149,15 @@ theorem C13_gcc_attribute_resumes (env : Env) (op0 op1 : Tok) (content : List To
       have hlB : Gen.balancedTokenMap.lookup cB.type = some ")" := by rw [hty1, hop1]; decide
       have hst : balStack0 [cA, cB] = [")", ")"] := by simp [balStack0, hlA, hlB]
       have hrun : ∀ cts : List CTok, cts.map CTok.tv = (content ++ [c1] ++ [c0]).map Tok.tv →
-          ∃ a, RunsTo P.balStep ([cA, cB], balStack0 [cA, cB]) cts a := by
+          RunsTo P.balStep ([cA, cB], balStack0 [cA, cB]) cts ([cA, cB] ++ cts) := by
         intro cts hcts
         obtain ⟨x1, cc0, hs0, _, hcc0, hx1⟩ := tv_split_last (xs := content ++ [c1]) (y := c0) hcts
         obtain ⟨x2, cc1, hs1, hx2, hcc1, _⟩ := tv_split_last (xs := content) (y := c1) hx1
         subst hs0; subst hs1
         rw [hst]
-        exact ⟨_, balanced_region2_runs cA cB ")" ")" hlA hlB x2 cc1 cc0 (by rw [hx2]; exact hn)
-          (by rw [hcc1, hc1]) (by rw [hcc0, hc0])⟩
+        have := balanced_region2_runs cA cB ")" ")" hlA hlB x2 cc1 cc0 (by rw [hx2]; exact hn)
+          (by rw [hcc1, hc1]) (by rw [hcc0, hc0])
+        simpa [List.append_assoc] using this
       obtain ⟨w', res, hw, hb, hsp, _⟩ := consumeBalanced_of_runs env [cA, cB] (content ++ [c1] ++ [c0]) wB b' F
         (by rw [hbuf1]; exact hrest) (by simp; omega) hrun
       refine ⟨w', ?_, hb, (hsameA.trans hsameB).trans hsp⟩
